@@ -5,6 +5,8 @@ classes and code paths as the shipped functionals, with seeded random parameters
 Everything is a deterministic function of the `Rng` passed in."""
 import numpy as np
 
+from cidersim.prng import Rng, derive
+
 
 # ---------------------------------------------------------------------------------
 # feature settings
@@ -39,7 +41,7 @@ def _theta(rng, level):
     return [a0, gm]
 
 
-def make_settings(kind, rng, normalizer=True):
+def make_settings(kind, rng, normalizer=True, vary_normalizers=False):
     from ciderpress.dft import settings as S
 
     sl_mode = {
@@ -114,7 +116,37 @@ def make_settings(kind, rng, normalizer=True):
             st.assign_reasonable_normalizer()
         except NotImplementedError:
             pass
+        else:
+            if vary_normalizers:
+                # (only where the settings are saved and evaluated on probe inputs: a cutoff
+                # of 0 with a negative density power is asking for infinities in an SCF run)
+                _vary_normalizers(st, kind)
     return st
+
+
+def _vary_normalizers(st, kind):
+    """A third of the settings get value-dependent normalisers on their last features and a
+    density cutoff other than the default (0 is a valid value).  The choice is derived from
+    the settings themselves, not drawn from the caller's generator (whose sequence stays as
+    it was)."""
+    from ciderpress.dft import feat_normalizer as FN
+
+    try:
+        lst = list(st.normalizers._normalizers)
+    except Exception:
+        return
+    r = Rng(derive("zoo-normalizers", kind, repr([float(x) for x in st.get_feat_usps()]), len(lst)))
+    if not r.chance(0.35) or len(lst) < 4:
+        return
+    for j in range(3, len(lst)):
+        c = r.below(4)
+        if lst[j] is None:
+            continue
+        if c == 0:
+            lst[j] = FN.DensityNormalizer(r.choice([0.5, 1.0, 2.0]), r.choice([-0.5, 0.5, 1.0]))
+        elif c == 1:
+            lst[j] = FN.InhomogeneityNormalizer(r.choice([0.5, 1.0]), r.choice([0.25, 1.0]), r.choice([-1, 1, 2]))
+    st.normalizers = FN.FeatNormalizerList(lst, slmode=st.sl_settings.mode, cutoff=r.choice([1e-10, 0, 0.0, 1e-6]))
 
 
 def feature_signs(settings):
@@ -202,6 +234,8 @@ def _make_fevals(kind, N1, rng, mode, bounds, layout=None):
                 length_scale=ls, length_scale_bounds="fixed"
             )
             alpha = nprng.normal(size=nctrl) * 0.05
+            if nctrl >= 4 and derive("zoo-sparse-weights", repr(float(alpha[0]))) % 10 < 3:
+                alpha[::2] = 0.0  # a pruned model: exact zeros among the weights (choice derived, not drawn)
             # callers hand over whatever array they have: strided views of a larger pool,
             # Fortran-ordered tables, read-only arrays (all valid NumPy inputs)
             drawn = rng.choice(["c", "c", "strided", "fortran", "cols", "readonly"])
